@@ -108,6 +108,9 @@ func TestVerif_C04_Values(t *testing.T) {
 					p.Knows = append(p.Knows, rapid.IntRange(-1, n-1).Draw(t, "knows"))
 				}
 				p.Val = rapid.SampledFrom([]int{0, 0, 1, 2, 3, 3, -1, -2, -2, -3, -4}).Draw(t, "val")
+				if p.Val > 0 {
+					p.ValVar = rapid.SampledFrom([]int{0, 0, 1, 2}).Draw(t, "valVar")
+				}
 			}
 			ns := rapid.IntRange(1, min(n, s.K+2)).Draw(t, "nSeeds")
 			s.Seeds = rapid.SliceOfNDistinct(rapid.IntRange(0, n-1), ns, ns, func(i int) int { return i }).Draw(t, "seeds")
@@ -142,6 +145,13 @@ func TestVerif_C04_Values(t *testing.T) {
 				supplied = append(supplied, simValue(sc.Local, strings.TrimPrefix(key, "/v/"), "local"))
 			}
 			anyDelivered := false
+			atEnd := 0
+			for _, e := range obs.Log {
+				if e.End == closedAt {
+					atEnd++
+				}
+			}
+			aloneAtEnd := atEnd == 1
 			for _, e := range obs.Log {
 				if e.Kind != "request" || e.Outcome != "ok" || e.Resp == nil || e.Resp.Record == nil {
 					continue
@@ -154,7 +164,10 @@ func TestVerif_C04_Values(t *testing.T) {
 				}
 				sawValid = true
 				anyDelivered = true
-				if e.End < closedAt {
+				// delivered strictly before the stream ended: processed. Delivered at the very instant it ended: processed for sure
+				// only when nothing else happened at that instant (then this answer is what ended the search - e.g. it completed the
+				// quorum - and ending comes after processing); otherwise it may have lost the race against whatever did end it.
+				if e.End < closedAt || (e.End == closedAt && aloneAtEnd && sc.CancelMs == 0) {
 					supplied = append(supplied, rec.Value)
 				}
 			}
